@@ -390,12 +390,16 @@ def _sr_job(E: int, M: int, srbits: int, group: str) -> Callable[[], Record]:
                 if len(calls) == 1:
                     cl = calls[0]
                     ctx.oblige(f"{tag}:independent_draw_per_element(size_is_input_shape)", isinstance(cl["size"], Shape) and cl["size"].eq(ctx, xt.shape) is True)
-                    ctx.oblige(f"{tag}:draw_is_uniform_on_[0,2^srbits)", cl["low"] == 0 and cl["high"] == 2**s and cl["dtype"] == "int32", got=f"[{cl['low']},{cl['high']}) {cl['dtype']}")
+                    ctx.oblige(f"{tag}:draw_is_uniform_on_[0,2^srbits)", cl["low"] == 0 and cl["high"] == 2**s, got=f"[{cl['low']},{cl['high']}) {cl['dtype']}")
                 ctx.oblige(f"{tag}:dtype_and_shape_preserved", ok_t and r.shape.eq(ctx, xt.shape) is True)
                 frame_obligations(ctx, f"{tag}:argument_not_modified")
             if not ok_t or len(calls) != 1:
                 return wit
-            R = calls[0]["R"]
+            R = calls[0]["R"]  # the draw, whatever integer dtype the code asked for, as a 32-bit integer in [0, 2^srbits)
+            if R.size() < 32:
+                R = z3.ZeroExt(32 - R.size(), R)
+            elif R.size() > 32:
+                R = z3.Extract(31, 0, R)
             wit["R"] = R
             code = r.elem
             cb = z3.fpToIEEEBV(code)
